@@ -43,3 +43,20 @@ MUTATIONS = [
     ("consts-labels-swapped", ["C19"], CO, "LABEL_LOCAL_REF = 3\nLABEL_REMOTE_REF = 4", "LABEL_LOCAL_REF = 4\nLABEL_REMOTE_REF = 3"),
     ("consts-handler-renumbered", ["C19"], CO, "HANDLE_CALL = 7\nHANDLE_CALLATTR = 8", "HANDLE_CALL = 8\nHANDLE_CALLATTR = 7"),
 ]
+
+MUTATIONS += [
+    # ---- C12: Connection._send
+    ("send-one-shot-no-recheck-after-release", ["C12"], P, "            finally:\n                self._sendlock.release()\n\n    def _box",
+     "            finally:\n                self._sendlock.release()\n            break\n\n    def _box"),
+    ("send-no-inner-recheck", ["C12"], P, "                if not self._send_queue:\n                    # Must `continue`",
+     "                if False:\n                    # Must `continue`"),
+    ("send-blocking-lock", ["C12"], P, "if not self._sendlock.acquire(False):", "if not self._sendlock.acquire():"),
+    ("send-own-data-not-popped", ["C12"], P, "                data = self._send_queue.pop(0)\n                self._channel.send(data)",
+     "                self._send_queue.pop(0)\n                self._channel.send(data)"),
+    ("send-pop-last", ["C12"], P, "data = self._send_queue.pop(0)", "data = self._send_queue.pop()"),
+    ("send-drain-under-lock", ["C12"], P,
+     "        while self._send_queue:\n            if not self._sendlock.acquire(False):\n                # Another thread holds the lock. It will send the data after\n                # it's done with its current job. We can safely return.\n                return\n            try:",
+     "        if not self._sendlock.acquire(False):\n            return\n        try:\n            while self._send_queue:\n                self._channel.send(self._send_queue.pop(0))\n        finally:\n            self._sendlock.release()\n        while False:\n            try:"),
+    ("send-no-queue-direct", ["C12"], P, "        self._send_queue.append(data)\n        # It is crucial",
+     "        if self._sendlock.acquire(False):\n            try:\n                self._channel.send(data)\n            finally:\n                self._sendlock.release()\n            return\n        self._send_queue.append(data)\n        # It is crucial"),
+]
